@@ -12,7 +12,7 @@
    n ranges over all of Z; d over all non-zero values of the divisor's C type (in_i64, in_u64, in_i32, in_u32, ...),
    INT64_MIN / 2^63 / 2^64-1 included.  The functions are the Gallina bodies of Model.v, one per overload. *)
 From Coq Require Import ZArith.
-From C02 Require Import Model DivSpec ProofsDiv ProofsMod ProofsProps.
+From C02 Require Import Model DivSpec ProofsDiv ProofsMod ProofsProps Table ProofsTable.
 Local Open Scope Z_scope.
 
 (* each rounding convention determines q and r uniquely (so 'the' truncated / floor / ceiling / euclidean quotient and remainder exist), and rounds in the direction its name says *)
@@ -81,3 +81,36 @@ Print Assumptions C02_quo_as_floor_refuted.
 (* isDivisor(a, b) <-> b | a *)
 Theorem C02_isDivisor : IsDivisor_stmt. Proof. exact isDivisor_spec. Qed.
 Print Assumptions C02_isDivisor.
+
+(* ---- phase 3: statements quantified over the overload table `forms` of Table.v (131 call forms; the extracted driver
+   dispatches through this very table and the check compares it with the forms it drives on every run).
+     in_ty t z : z lies in the range of the C type t;  pre k n d : d <> 0 (d | n for divexact; nothing for isDivisor)
+     spec k n d : the closed form of convention k (tquo / trem / fquo / ... of DivSpec.v);  meets k n d out : the relation *)
+(* EVERY call form of the table, for all operands of its C types: it returns the closed form of the convention it is listed
+   with, and that output satisfies the convention's defining relation (n = d q + r, bound and sign of r) *)
+Theorem C02_every_call_form_meets_its_convention : Every_form_meets_its_convention_stmt. Proof. exact every_form_meets_its_convention. Qed.
+Print Assumptions C02_every_call_form_meets_its_convention.
+(* ALL overloads / call forms of one operation agree: any two table entries listed with the same convention return the same
+   output wherever both are defined (one statement over the table instead of one per pair) *)
+Theorem C02_all_overloads_of_one_operation_agree : Overloads_of_one_operation_agree_stmt. Proof. exact overloads_of_one_operation_agree. Qed.
+Print Assumptions C02_all_overloads_of_one_operation_agree.
+(* the table's form names are pairwise distinct (the dispatch by name is a function) *)
+Theorem C02_form_names_distinct : Form_names_distinct_stmt. Proof. exact form_names_distinct. Qed.
+Print Assumptions C02_form_names_distinct.
+(* floor <= trunc <= ceil; they coincide iff d | n, else ceil = floor + 1 and frem - crem = d; trunc is floor when n d >= 0 and
+   ceil when n d <= 0; quo / mod are floor / frem for d > 0 and ceil / crem for d < 0 *)
+Theorem C02_roundings_relate : Roundings_relate_stmt. Proof. exact roundings_relate. Qed.
+Print Assumptions C02_roundings_relate.
+(* isDivisor(a,b) <-> rem(a,b) = 0 <-> a % b = 0, and then every quotient form (divexact x6, quo, div, floor, ceil, quoRem) is the k with a = b k *)
+Theorem C02_isDivisor_divexact_consistent : IsDivisor_consistent_stmt. Proof. exact isDivisor_consistent. Qed.
+Print Assumptions C02_isDivisor_divexact_consistent.
+(* round53 (the int64_t -> double conversion in operator%(double)) is IEEE round-to-nearest-even: the result is a multiple
+   m 2^k of the last-place unit with |m| <= 2^53, no multiple of 2^k is nearer, and when another one is equally near the
+   chosen significand is even *)
+Theorem C02_round53_is_ieee_nearest_even : Round53_ieee_stmt. Proof. exact round53_ieee. Qed.
+Print Assumptions C02_round53_is_ieee_nearest_even.
+(* the casts of the CInt layer are the C conversions (the value of the destination type congruent modulo 2^N; identity on
+   it), std::abs / unary minus on long followed by the conversion to unsigned long give |n| (INT64_MIN included), a cast
+   chain through int64_t narrows like the direct cast, static_cast<uint64_t>(double) truncates *)
+Theorem C02_cint_casts_are_C_conversions : CInt_casts_stmt. Proof. exact cint_casts. Qed.
+Print Assumptions C02_cint_casts_are_C_conversions.
